@@ -400,6 +400,19 @@ def main(ctx):
                                'res': run_select(rows, key, via, build=lambda: build_auto(rows, route))})
                 ctx.count('V_select_auto_leaves')
             continue
+        if ctx.rng.random() < 0.04:
+            # four or five adjacent outer labels, a list selector that keeps the first and the last in place and reorders the interior:
+            # the selected blocks tile one contiguous range although they are not in index order
+            outers = ctx.rng.sample(ALPH[0], ctx.rng.randint(4, 5))
+            rows = [[o, i] for o in outers for i in ctx.rng.sample(ALPH[1], ctx.rng.randint(1, 2))]
+            interior = outers[1:-1]
+            while len(interior) > 1 and interior == outers[1:-1]:
+                ctx.rng.shuffle(interior)
+            key = [['loclist', [outers[0]] + interior + [outers[-1]]], ['all']]
+            via = ctx.rng.choice(['loc_to_iloc', 'ih_loc', 'series', 'frame'])
+            events.append({'id': len(events), 'kind': 'select', 'rows': rows, 'key': key, 'ismask': False, 'via': via, 'res': run_select(rows, key, via)})
+            ctx.count('V_select_reordered_tiling')
+            continue
         depth = ctx.rng.choice([2, 2, 3, 4])
         rows = rand_rows(ctx.rng, depth, ctx.rng.randint(1, 9))
         q = ctx.rng.random()
